@@ -4,7 +4,7 @@ from . import replies
 NOTE = {
     "C07": "reply machine model-checked over the compiled tables; every (handler name, outcome, events, data class) reply incl. unknown ids "
            "dispatched through sv::dispatch_reply, the reply entry point and the multitest impl; routing, context, second parameter and "
-           "pass-through arms judged by TLC",
+           "pass-through arms judged by TLC; liveness (`Dispatched`) checked under fairness",
     "C08": "ids, reply_on, kept message/gas limit and payload encoding of every builder (5 receiver classes x 2 value sets) and the end-to-end "
            "delivery of payload values to the handler judged by TLC",
     "C09": "7 data modes x 6 data classes (absent / execute envelope / instantiate envelope / empty envelope / garbage / bad JSON) through the "
@@ -13,4 +13,8 @@ NOTE = {
 
 
 def run(prop, tier, seed, replay):
+    if prop == "C07":
+        # liveness of the reply machine (design level): every reply that reaches the dispatcher is answered
+        from ..common import tlc_model
+        tlc_model("MC_Reply", "MC_Reply_live.cfg", workers=8, timeout=900, coverage=False)
     return replies.run_property(prop, tier, seed, NOTE[prop], with_tables=False)
